@@ -75,25 +75,44 @@ theorem patch_then_get (ell : Bool) (v0 v1 val : Json) : ∀ (parts : List Bytes
           simp only [hl', inObj]
           exact ih'
     | arr xs =>
-      rw [trav_arr] at hg hp ⊢
-      cases ha : atoi part with
-      | none => simp [ha] at hg
-      | some i =>
-        simp only [ha] at hg hp ⊢
-        by_cases hi : i < 0 ∨ i ≥ xs.length
-        · simp [hi] at hg
-        · rw [if_neg hi] at hg hp ⊢
-          cases hx : xs[i.toNat]? with
-          | none => simp [hx] at hg
-          | some c =>
-            simp only [hx, inArr] at hg hp ⊢
-            have ih' := ih c x o hg hp
-            rw [trav_arr]
-            have hi' : ¬ (i < 0 ∨ i ≥ ((xs.set i.toNat (trav .patch ell val rest c).1).length : Int)) := by simpa using hi
-            simp only [ha, if_neg hi']
-            have hlt : i.toNat < xs.length := by omega
-            simp only [List.getElem?_set_self hlt, inArr]
-            exact ih'
+      rcases trav_arr_cases .get ell v0 part rest xs with ⟨_, heq⟩ | ⟨i, _, _, heq⟩ | ⟨i, c, ha, h0, hlt, hx, ⟨arr, idxStr, rfl, rfl, heq⟩ | ⟨hns, heq⟩⟩
+      · rw [heq] at hg; simp at hg
+      · rw [heq] at hg; simp at hg
+      · -- the destination array is an element of this array
+        rw [heq] at hg
+        obtain ⟨j, hj, hj0, hj1, hjx⟩ := arrayOp_get_ok (by simpa [inArrayElem] using hg)
+        rw [trav_arr_special ha h0 hlt hx, arrayOp_patch_ok hj hj0 hj1]
+        simp only [inArrayElem]
+        have hlt' : i < ((xs.set i.toNat (.arr (arr.set j.toNat val))).length : Int) := by simpa using hlt
+        have hlt2 : i.toNat < xs.length := by omega
+        rw [trav_arr_special (arr := arr.set j.toNat val) ha h0 hlt' (by simp [List.getElem?_set_self hlt2])]
+        simp only [inArrayElem]
+        apply arrayOp_get_at hj hj0 (by simpa using hj1)
+        have : j.toNat < arr.length := by omega
+        simp [this]
+      · rw [heq] at hg
+        rw [trav_arr_in ha h0 hlt hx hns] at hp ⊢
+        simp only [inArr] at hg hp ⊢
+        have ih' := ih c x o hg hp
+        have hlt' : i < ((xs.set i.toNat (trav .patch ell val rest c).1).length : Int) := by simpa using hlt
+        have hlt2 : i.toNat < xs.length := by omega
+        -- the patched element is an array only if the element was (and then `rest` is not a single index)
+        have hns' : ∀ arr idxStr, (trav .patch ell val rest c).1 = .arr arr → rest ≠ [idxStr] := by
+          intro arr idxStr harr hr
+          subst hr
+          cases c with
+          | obj ckvs =>
+            rw [trav_obj_last] at harr
+            obtain ⟨k', hk'⟩ := lastOp_is_obj .patch ell val idxStr ckvs (lookup idxStr ckvs)
+            rw [hk'] at harr; cases harr
+          | arr cxs => exact hns cxs idxStr rfl rfl
+          | null => rw [trav_scalar (by simp) (by simp)] at hp; simp at hp
+          | bool _ => rw [trav_scalar (by simp) (by simp)] at hp; simp at hp
+          | num _ => rw [trav_scalar (by simp) (by simp)] at hp; simp at hp
+          | str _ => rw [trav_scalar (by simp) (by simp)] at hp; simp at hp
+        rw [trav_arr_in (c := (trav .patch ell val rest c).1) ha h0 hlt' (by simp [List.getElem?_set_self hlt2]) hns']
+        simp only [inArr]
+        exact ih'
     | null => rw [trav_scalar (by simp) (by simp)] at hg; simp at hg
     | bool _ => rw [trav_scalar (by simp) (by simp)] at hg; simp at hg
     | num _ => rw [trav_scalar (by simp) (by simp)] at hg; simp at hg
